@@ -35,7 +35,7 @@ fn gen_timehelp(g: &mut Rng, _tier: Tier) -> J {
         cases.push(obj! {"dur" => g.below(DURS.len() as u64), "clock" => g.below(4)});
     }
     let mut sim = gen_sim(g, SimOpts { concurrent: false, max_points: 300_000, ..SimOpts::default() });
-    sim.set("max_sim_ms", J::from(u64::MAX / 2_000_000));
+    sim.set("max_sim_ms", J::from(u64::MAX / 1_000_000));
     obj! {
         "cases" => J::Arr(cases),
         "huge_delay" => g.below(DURS.len() as u64),
